@@ -16,3 +16,6 @@ for f in sorted(glob.glob('/verif/evidence/C??.json')):
 print('evidence files checked:', len(glob.glob('/verif/evidence/C??.json')))
 sys.exit(0 if ok else 1)
 PY
+# the unchanged tree must be decided as written (level 0): a rule that needs a normal form on today's tree is a rule bug
+if /verif/bin/nettylint -property all -no-evidence 2>&1 | grep -q 'normal form'; then echo "CLEAN TREE NEEDS A NORMAL FORM"; /verif/bin/nettylint -property all -no-evidence 2>&1 | grep 'normal form' | cut -c1-160; exit 1; fi
+echo "clean tree decided as written"
